@@ -229,6 +229,9 @@ class Ref:
                 raise AssertionError(nd)
 
 
+MARK_WINDOW = 24
+
+
 def concrete(parts) -> str:
     """The parts with the shipped conventions filled in (fast path for comparison)."""
     return "".join(p if isinstance(p, str) else
@@ -243,19 +246,34 @@ def matches(parts, actual: str):
         return actual == "".join(parts)
     if actual == concrete(parts):
         return True
-    rx = []
-    unk = []
+    # set-of-positions matching (linear in len(parts) x window; a backtracking regex can blow up)
+    positions = {0}
     for p in parts:
+        nxt = set()
         if isinstance(p, str):
-            rx.append(re.escape(p))
-        elif p[0] == "M":
-            n = re.escape(p[1])
-            rx.append(r"(?:\{\{%s\}\}||[^{}]{0,24}%s[^{}]{0,24})" % (n, n))
+            for pos in positions:
+                if actual.startswith(p, pos):
+                    nxt.add(pos + len(p))
         else:
-            unk.append(p[1])
-            rx.append(r"([^{}]{0,30}%s[^{}]{0,30})" % re.escape(p[1]))
-    m = re.fullmatch("".join(rx), actual, re.DOTALL)
-    return m is not None
+            kind, name = p
+            raw = "{{%s}}" % name
+            for pos in positions:
+                if kind == "M":
+                    nxt.add(pos)                                  # printed as nothing
+                    if actual.startswith(raw, pos):
+                        nxt.add(pos + len(raw))                   # left in place
+                end = pos
+                limit = min(len(actual), pos + 2 * MARK_WINDOW + len(name))
+                while end < limit and actual[end] not in "{}":
+                    end += 1
+                    if name in actual[pos:end]:
+                        at = actual.find(name, pos, end)
+                        if at - pos <= MARK_WINDOW and end - (at + len(name)) <= MARK_WINDOW:
+                            nxt.add(end)                          # short brace-free marker naming it
+        positions = nxt
+        if not positions:
+            return False
+    return len(actual) in positions
 
 
 def names_var(warnings, name) -> bool:
